@@ -13,11 +13,11 @@ bad=[k for k in range(len(c)) if k>=len(m) or i[k]!=m[k]]
 badO=[k for k in range(len(c)) if o[k] and i[k]!=o[k]]
 print(len(c),"cases; model lines",len(m),"; impl!=model:",len(bad),"; impl!=oracle:",len(badO))
 def show(k):
-    print("CASE ",c[k][:1500])
+    print("CASE ",c[k][:300])
     a=i[k].split(" "); b=(m[k] if k<len(m) else "").split(" ")
     for j in range(max(len(a),len(b))):
         x=a[j] if j<len(a) else "<none>"; y=b[j] if j<len(b) else "<none>"
-        if x!=y: print("  first diff at token",j,"\n   IMPL ",x[:700],"\n   MODEL",y[:700]); break
+        if x!=y: print("  first diff at token",j,"\n   IMPL ",x[:300],"\n   MODEL",y[:300]); break
     if o[k]: print("  ORACLE",o[k][:700])
     print()
 for k in (bad+badO)[:nshow]: show(k)
